@@ -82,6 +82,7 @@ func main() {
 		skip    = flag.String("skip", "", "operations drawn but not executed")
 		levels  = flag.String("levels", "RU,RC,RR,SER", "isolation levels")
 		obsAll  = flag.Bool("obs", true, "record the read matrix after every call")
+		obsEach = flag.Int("obsevery", 0, "with -obs=false: record the read matrix after every reopen, after the last call and after every N-th call (0: never)")
 		bigSize = flag.Bool("big", false, "use the full range of content sizes (slower)")
 		unique  = flag.Bool("uniquekeys", false, "every Set writes a key of its own (nothing is ever overwritten)")
 		maxDir  = flag.Uint64("maxdir", 100, "configured directory limit (values below 100 are clamped to 100 by the code)")
@@ -377,7 +378,7 @@ func main() {
 		ev.Res = drv.Class(opErr)
 		ev.Idle = drv.WaitIdle(5 * time.Second)
 
-		if *obsAll {
+		if *obsAll || (*obsEach > 0 && (op == "reopen" || n == *steps-1 || n%*obsEach == *obsEach-1)) {
 			readers := append([]int{0}, open...)
 			for _, t := range readers {
 				for _, k := range keys {
